@@ -1026,6 +1026,15 @@ def r_config_plumbing(repo, rep, R):
               'max_step': 'args.max_step'}
     for k, e in expect.items():
         got = src(kd[k]) if k in kd else None
+        if k == 'use_beta' and got != e and k in kd:
+            # the switch judged by what it does: however --disable-beta is declared (store_true under its own name,
+            # store_false with dest=..) and however main reads it, the filter is on without the flag and off with it
+            from .cli import switch_semantics, eval_switch_expr
+            sem = switch_semantics(repo, '--disable-beta')
+            oks = bool(sem) and all(s_ is not None and eval_switch_expr(kd[k], {s_[1]: s_[2]}) is True and eval_switch_expr(kd[k], {s_[1]: s_[3]}) is False for s_ in sem)
+            rep.check(oks, R, w3, 'main:kwargs:' + k, 'use_beta is true without --disable-beta and false with it (%s, declared as %s)' % (got, sem),
+                      'parameter %r is set from %s, with --disable-beta declared as %s: the switch does not turn the filter off (or on by default)' % (k, got, sem))
+            continue
         rep.check(got == e, R, w3, 'main:kwargs:' + k, 'CLI option reaches parameter %r as %s' % (k, e),
                   'parameter %r is set from %s' % (k, got))
     extra = set(kd) - pparams
